@@ -117,7 +117,7 @@ pub fn repr_string<S: USet>(s: &S) -> String {
     }
 }
 pub fn layout_tag<S: USet>(s: &S) -> char {
-    let (word, heap) = s.repr();
+    let (word, heap) = s.header();
     match heap {
         None => {
             if word == 0 {
@@ -126,7 +126,7 @@ pub fn layout_tag<S: USet>(s: &S) -> char {
                 'S'
             }
         }
-        Some((_, _, bits, _)) => {
+        Some((_, _, bits)) => {
             if bits == S::W as u64 {
                 'D'
             } else if bits == 0 || bits > S::W as u64 {
@@ -244,12 +244,6 @@ impl<S: USet> Eng<S> {
         }
         let mut present: Vec<u64> = vec![];
         let mut ph = 0;
-        if let Some(s) = &self.slots[slot] {
-            if let (_, Some((_, _, bits, a))) = s.repr() {
-                ph = bits;
-                present = a.into_iter().filter(|&x| x != 0).take(32).collect();
-            }
-        }
         let style = match self.force_style {
             Some(st) => st,
             None => {
@@ -260,6 +254,15 @@ impl<S: USet> Eng<S> {
                 }
             }
         };
+        if style == 3 {
+            // draws equal to a word already in the table / to the placeholder (needs a copy of the table)
+            if let Some(s) = &self.slots[slot] {
+                if let (_, Some((_, _, bits, a))) = s.repr() {
+                    ph = bits;
+                    present = a.into_iter().filter(|&x| x != 0).take(32).collect();
+                }
+            }
+        }
         let mut v = vec![];
         for k in 0..n {
             let d = match style {
@@ -316,7 +319,7 @@ impl<S: USet> Eng<S> {
         let mut bytes = self.extra_live_bytes;
         for s in self.slots.iter().flatten() {
             let cap = s.capacity();
-            if let (_, Some(_)) = s.repr() {
+            if let (_, Some(_)) = s.header() {
                 blocks += 1;
                 bytes += (S::HEADER + S::ELEM * cap) as i64;
             }
@@ -335,7 +338,7 @@ impl<S: USet> Eng<S> {
         // len / is_empty / mem_used / C11 bound, cheap enough for every step
         let (len, emp, mem, cap, heap) = {
             let s = self.slots[i].as_ref().unwrap();
-            (s.len(), s.is_empty(), s.mem_used(), s.capacity(), s.repr().1.is_some())
+            (s.len(), s.is_empty(), s.mem_used(), s.capacity(), s.header().1.is_some())
         };
         let olen = self.oracle[i].len();
         if len != olen {
@@ -364,7 +367,14 @@ impl<S: USet> Eng<S> {
             Some(s) => layout_tag(s),
         }
     }
+    pub fn repr_full(&self, i: usize) -> String {
+        repr_string(self.slots[i].as_ref().unwrap())
+    }
     pub fn repr(&self, i: usize) -> String {
+        if self.quiet || self.mode == Mode::Unscripted {
+            // nothing is written to the trace: do not copy and hash large tables
+            return String::new();
+        }
         repr_string(self.slots[i].as_ref().unwrap())
     }
 
@@ -439,9 +449,9 @@ impl<S: USet> Eng<S> {
             return;
         }
         self.slots[i] = None;
-        let before = self.repr(j);
+        let before = self.repr_full(j);
         let s = alloc::under_test(|| S::wco(self.slots[j].as_ref().unwrap()));
-        if self.repr(j) != before {
+        if self.repr_full(j) != before {
             self.fail("C07,C18", "with_capacity_of changed its argument".into());
         }
         if s.capacity() != self.slots[j].as_ref().unwrap().capacity() || s.len() != 0 {
@@ -461,9 +471,9 @@ impl<S: USet> Eng<S> {
             return;
         }
         self.slots[i] = None;
-        let before = self.repr(j);
+        let before = self.repr_full(j);
         let s = alloc::under_test(|| self.slots[j].as_ref().unwrap().clone());
-        if self.repr(j) != before {
+        if self.repr_full(j) != before {
             self.fail("C07,C18", "clone changed the original".into());
         }
         if &s != self.slots[j].as_ref().unwrap() {
@@ -613,20 +623,20 @@ impl<S: USet> Eng<S> {
     }
     pub fn op_con(&mut self, i: usize, v: u64) {
         let v = S::norm(v);
-        let before = self.repr(i);
+        let before = self.repr_full(i);
         let b = alloc::under_test(|| self.slots[i].as_ref().unwrap().con(v));
         let want = self.oracle[i].contains(&v);
         self.emit(&format!("con {} {} {}", i, S::enc(v), b as u8));
         if b != want {
             self.fail("C01,C02", format!("contains({}) = {} but the value is {}", v, b, if want { "present" } else { "absent" }));
         }
-        if self.repr(i) != before {
+        if self.repr_full(i) != before {
             self.fail("C18", "contains() changed the representation".into());
         }
         self.bump(&format!("con:{}", self.tag(i)));
     }
     pub fn op_obs(&mut self, i: usize) {
-        let before = self.repr(i);
+        let before = self.repr_full(i);
         let (l, c, m) = {
             let s = self.slots[i].as_ref().unwrap();
             (s.len(), s.capacity(), s.mem_used())
@@ -636,7 +646,7 @@ impl<S: USet> Eng<S> {
             self.emit(&format!("cap {} {}", i, c));
             self.emit(&format!("mem {} {}", i, m));
         }
-        if self.repr(i) != before {
+        if self.repr_full(i) != before {
             self.fail("C18", "len/capacity/mem_used changed the representation".into());
         }
         self.check_set(i, "observe");
@@ -644,14 +654,14 @@ impl<S: USet> Eng<S> {
 
     // ---------------------------------------------------------------- iteration
     pub fn op_iter(&mut self, i: usize) {
-        let before = self.repr(i);
+        let before = self.repr_full(i);
         let items = detach(alloc::under_test(|| self.slots[i].as_ref().unwrap().items()));
         let mut l = format!("iter {} {}", i, items.len());
         for x in &items {
             write!(l, " {}", S::enc(*x)).unwrap();
         }
         self.emit(&l);
-        if self.repr(i) != before {
+        if self.repr_full(i) != before {
             self.fail("C18", "iter() changed the representation".into());
         }
         let olen = self.oracle[i].len();
@@ -681,7 +691,7 @@ impl<S: USet> Eng<S> {
         self.post_check();
     }
     pub fn op_shortcut(&mut self, i: usize, which: It, pos: usize, kind: &str) {
-        let before = self.repr(i);
+        let before = self.repr_full(i);
         let r = catch_unwind(AssertUnwindSafe(|| alloc::under_test(|| self.slots[i].as_ref().unwrap().shortcut(which, pos, kind))));
         let all = self.slots[i].as_ref().unwrap().items();
         let rest: Vec<u64> = all.iter().skip(pos).cloned().collect();
@@ -706,7 +716,7 @@ impl<S: USet> Eng<S> {
                 self.fail("C13", format!("{:?} iterator after {} next(): {}() panicked", which, pos, kind));
             }
         }
-        if self.repr(i) != before {
+        if self.repr_full(i) != before {
             self.fail("C18", "an iterator method changed the representation".into());
         }
         self.bump(&format!("sc:{}:{:?}:{}", kind, which, self.tag(i)));
@@ -783,7 +793,7 @@ impl<S: USet> Eng<S> {
         }
         self.slots[k] = None;
         let own = own && S::HAS_OWN_OPS;
-        let (bi, bj) = (self.repr(i), self.repr(j));
+        let (bi, bj) = (self.repr_full(i), self.repr_full(j));
         let pushed = self.script_n(i, 6000);
         let r = catch_unwind(AssertUnwindSafe(|| {
             alloc::under_test(|| {
@@ -809,7 +819,7 @@ impl<S: USet> Eng<S> {
                 self.emit(&format!("{} {} {} {} {}{} R {}", name, k, i, j, if own { "own" } else if !S::HAS_OWN_OPS && !union { "ref64" } else if !S::HAS_OWN_OPS { "ref64u" } else { "ref" }, d, rp));
                 self.check_set(k, name);
                 self.check_members(k, "C09", if union { "union" } else { "difference" });
-                if self.repr(i) != bi || self.repr(j) != bj {
+                if self.repr_full(i) != bi || self.repr_full(j) != bj {
                     self.fail("C09,C18", "a borrowed operand of | or - changed".into());
                 }
                 self.bump(&format!("op:{}:{}:{}{}", name, if own { "own" } else { "ref" }, self.tag(i), self.tag(j)));
